@@ -18,7 +18,9 @@ def run(P, rep, tier):
         'the summary is compared, as a function, with the psABI/gcc step function on a grid of layout states that covers two periods of '
         'every alignment involved, so an equivalent rewrite of a formula is not an alarm. attribute_list, the _Alignas specifier and the '
         'three declaration sites are interpreted on concrete/abstract inputs and the alignment that reaches the object is compared with '
-        '"attribute else type". The step and the final size are judged on every path whose condition holds at a grid state, for packed and unpacked '
+        '"attribute else type"; attribute_list is run on attribute lists whose aligned() arguments and the alignment on entry are unknowns, and its path '
+        'summaries are compared as a function with "every positive aligned(N) sets the alignment, the last one decides" on a grid (entry alignment 1..64, arguments -8..4096). '
+        'The step and the final size are judged on every path whose condition holds at a grid state, for packed and unpacked '
         'types (fields of the type that are not layout state are unconstrained). stddef.h is read through clang and compared with the types the compiler gives sizeof, pointer '
         'difference and wide literals; every ABI-visible typedef of stddef.h, stdarg.h and stdatomic.h is laid out by the psABI rules from its declaration and '
         'its size, alignment, signedness (and for va_list the member offsets) are compared with the platform ABI. Not decided: the fold of the step function over member sequences (the step + entry + exit '
@@ -28,6 +30,7 @@ def run(P, rep, tier):
         'layout grid: running offset 0..287 bits, bit-field types of 1,2,4,8 bytes with every width 1..8*size, member sizes 0..48, alignments 1..16; values never overflow int',
         'a struct_union_decl() result has size 0 (complete; checked for definitions by R08.3 definition/*/complete) or -1 (forward declaration) and alignment >= 1',
         'struct_members() writes members/is_flexible of the type it is given and attribute_list() is_packed/align (each checked on its own); declspec() only adds to *attr',
+        'a non-positive aligned() argument may be ignored or diagnosed (not judged further); alignments that are not powers of two are outside the attribute grid',
         'packed + explicit member _Alignas is outside the oracle (GNU extension interplay); packed layouts are compared with gcc, the rest with psABI 3.1.2',
         'platform ABI of the header typedefs: gcc <stddef.h>/<stdarg.h>/<stdatomic.h> with glibc <stdint.h> on x86-64 (int_fast16/32/64_t are long); _Atomic T has the size and alignment of T (T up to 8 bytes)',
     ]
@@ -427,7 +430,8 @@ def _guarded(rep, key, f, *a):
 def r083(P, u, rep):
     rep.rule('R08.3', 'struct_decl/union_decl lay one more member out exactly as psABI 3.1.2 prescribes (placement, bit-field units, alignment contribution, packed) '
              'and round the final size to the alignment; struct and union take a member\'s alignment from the same source; attributes (before the tag and after the brace, for new, '
-             'known and absent tags) and flexible arrays reach the type that is laid out', floor=76)
+             'known and absent tags) and flexible arrays reach the type that is laid out; every positive aligned(N) sets the alignment, so among several aligned attributes '
+             '(in one list, in two lists, before the tag and after the brace) the last one decides, as in gcc', floor=82)
     _guarded(rep, '%s:struct_decl:layout' % PU, layout_fn, P, u, rep, 'struct_decl', False)
     _guarded(rep, '%s:union_decl:layout' % PU, layout_fn, P, u, rep, 'union_decl', True)
     _guarded(rep, '%s:attribute_list:attributes' % PU, r083_attributes, P, u, rep)
